@@ -46,6 +46,7 @@ thread_local! {
     static DRAWS: RefCell<Option<Vec<Draw>>> = RefCell::new(None);
     static GENS: RefCell<Option<Vec<GenRequest>>> = RefCell::new(None);
     static GEN_BUDGET: Cell<Option<usize>> = Cell::new(None);
+    static GEN_LAZY: Cell<bool> = Cell::new(false);
 }
 
 /// Start (or restart) recording on the calling thread.
@@ -81,6 +82,13 @@ pub fn set_gen_budget(budget: Option<usize>) {
     GEN_BUDGET.with(|b| b.set(budget));
 }
 
+/// Choose where the generator budget is enforced on the calling thread: at the request
+/// (`false`, the default) or at each generator actually derived (`true`), so that whatever
+/// the callee does between the request and its first unit of work is still executed.
+pub fn set_gen_budget_lazy(lazy: bool) {
+    GEN_LAZY.with(|l| l.set(lazy));
+}
+
 /// Record one random draw (no-op unless recording is on).
 pub fn rng_draw(site: &'static str, bits: u32, value: &[u8]) {
     let seq = DRAW_SEQ.with(|s| {
@@ -110,10 +118,29 @@ pub fn gen_request(count: usize, api_id: &[u8]) {
             });
         }
     });
+    if GEN_LAZY.with(|l| l.get()) {
+        return;
+    }
     if let Some(budget) = GEN_BUDGET.with(|b| b.get()) {
         if count > budget {
             std::panic::panic_any(GenBudgetExceeded {
                 requested: count,
+                budget,
+            });
+        }
+    }
+}
+
+/// Called before the `i`-th generator (1-based) is derived; in lazy mode the budget is
+/// enforced here.
+pub fn gen_step(i: usize) {
+    if !GEN_LAZY.with(|l| l.get()) {
+        return;
+    }
+    if let Some(budget) = GEN_BUDGET.with(|b| b.get()) {
+        if i > budget {
+            std::panic::panic_any(GenBudgetExceeded {
+                requested: i,
                 budget,
             });
         }
